@@ -1069,7 +1069,7 @@ func main() {
 	if c.Thorough() {
 		nTiny = 3000
 	}
-	for i := 0; i < nTiny; i++ {
+	for i := 0; i < nTiny && !e.dead; i++ {
 		st, body, err := e.post("/api/v1/query/arrow", fmt.Sprintf("SELECT %d AS c0", i))
 		if err == nil && st == 200 {
 			if _, rr, derr := decodeIPC(body); derr != nil {
